@@ -87,9 +87,11 @@ class AstTreeProfiler:
             tree (_ast.Module):
                 abstract syntax tree of the script.
         """
-        with open(script_file, 'r') as f:
-            script_text = f.read()
-        tree = ast.parse(script_text, filename=script_file)
+        # Hand the undecoded source to the compiler, which honours a PEP 263
+        # encoding declaration or a UTF-8 BOM the way `python script.py` does
+        with open(script_file, 'rb') as f:
+            script_source = f.read()
+        tree = ast.parse(script_source, filename=script_file)
         return tree
 
     def _profile_ast_tree(self,
